@@ -342,37 +342,3 @@ Qed.
 Lemma mo_drain : MonoF drain.
 Proof. intros s0 s H. unfold drain. apply mo_drain_message_in. exact H. Qed.
 
-(* ---------- C20: the second peer timeout (nothing heard since the TestRequest) ---------- *)
-Lemma dead_peer_general : forall s i,
-  s_st s = SPending i -> is_logged_on i = true -> s_out_open s = true ->
-  let s' := step s (ETimeout PeerTimeout) in
-  s_st s' = SLatent /\ In CbOnLogout (s_cbs s') /\ s_closed s' = true.
-Proof.
-  intros s i Hst Hl Ho. unfold step, step_event.
-  set (c := clear_logs s).
-  assert (Hc : s_st c = SPending i) by exact Hst.
-  rewrite Hc. cbn [state_timeout]. unfold set_state, set_state_with. cbn [is_connected negb].
-  rewrite Hc. assert (Hconn : is_connected (SPending i) = true).
-  { cbn. clear - Hl. induction i; cbn in *; try discriminate; auto. }
-  rewrite Hconn.
-  assert (Hfin : forall x, In CbOnLogout (s_cbs x) -> s_closed x = true ->
-            let y := upd_st (if s_pending_stop x then upd_flags x (s_sent_reset x) (s_hb x) true true else x) SLatent in
-            s_st y = SLatent /\ In CbOnLogout (s_cbs y) /\ s_closed y = true).
-  { intros x H1 H2. destruct (s_pending_stop x); cbn; auto. }
-  apply Hfin.
-  - (* OnLogout is logged before the drain and survives it *)
-    unfold handle_disconnect_state. cbn [s_cbs upd_chan].
-    match goal with |- In _ (s_cbs (drain ?x)) => destruct (mo_drain x x (mono_refl x)) as [_ M]; apply M end.
-    rewrite Hc. cbn [is_logged_on]. rewrite Hl. cbn [orb].
-    assert (Hin : In CbOnLogout (s_cbs (log_cb c CbOnLogout))) by (left; reflexivity).
-    repeat match goal with |- context [if ?x then _ else _] => destruct x end; cbn; try (left; reflexivity);
-      try (right; left; reflexivity); auto.
-  - unfold handle_disconnect_state. cbn [s_closed upd_chan].
-    match goal with |- s_closed (drain ?x) = true => destruct (mo_drain x x (mono_refl x)) as [M _]; apply M end.
-    rewrite Hc. cbn [is_logged_on]. rewrite Hl. cbn [orb].
-    assert (Ho1 : forall y, Same (log_cb c CbOnLogout) y -> s_out_open y = true).
-    { intros y (S1 & _). rewrite S1. exact Ho. }
-    destruct (c_reset_on_disconnect (s_cfg (log_cb c CbOnLogout))).
-    + rewrite (Ho1 (drop_and_reset (log_cb c CbOnLogout))) by fr_go. reflexivity.
-    + rewrite (Ho1 (log_cb c CbOnLogout)) by fr_go. reflexivity.
-Qed.
